@@ -5,27 +5,27 @@ From CF Require Import PyDict.
 Open Scope Z_scope.
 
 (* chipfiring/CFConfig.py :: CFConfig.get_out_degree_S   reads ['self_graph_vertices', 'self_q_vertex', 'self_graph_graph'], writes [], may raise *)
-Definition CFConfig_get_out_degree_S (self_graph_vertices : list nat) (self_q_vertex : nat) (self_graph_graph : dictD) (v_name_in_S : nat) (S_names : list nat) : option Z :=
+Definition CFConfig_get_out_degree_S (self_graph_vertices : list nat) (self_q_vertex : nat) (self_graph_graph : dictD) (v_name_in_S : nat) (S_names : list nat) : pyres (unit) Z :=
   let v_in_S_obj := v_name_in_S in
   if (negb (s_mem v_in_S_obj self_graph_vertices)) then
-  None
+  PyExn tt
   else
   if (Nat.eqb v_in_S_obj self_q_vertex) then
-  None
+  PyExn tt
   else
   if (negb (s_mem v_name_in_S S_names)) then
-  None
+  PyExn tt
   else
   let S_vertices_objs := S_names in
   let out_degree := 0 in
   if (d_mem v_in_S_obj self_graph_graph) then
-  match d_find v_in_S_obj self_graph_graph with None => None | Some t1_ =>
-  match fold_left (fun acc_ kv_ => match acc_ with None => None | Some out_degree => let '(neighbor_vertex, valence) := kv_ in
+  match d_find v_in_S_obj self_graph_graph with None => PyExn tt | Some t1_ =>
+  match fold_left (fun acc_ kv_ => match acc_ with PyExn e_ => PyExn e_ | PyOk out_degree => let '(neighbor_vertex, valence) := kv_ in
   if (negb (s_mem neighbor_vertex S_vertices_objs)) then
   let out_degree := (out_degree + valence) in
-  Some out_degree
+  PyOk out_degree
   else
-  Some out_degree end) t1_ (Some out_degree) with None => None | Some out_degree =>
-  Some (out_degree) end end
+  PyOk out_degree end) t1_ (PyOk out_degree) with PyExn e_ => PyExn e_ | PyOk out_degree =>
+  PyOk (out_degree) end end
   else
-  Some (out_degree).
+  PyOk (out_degree).
